@@ -420,6 +420,7 @@ def Expr.lineFreeE : Expr → Prop
   | .wth env body _ _ _ b a => env.lineFreeE ∧ body.lineFreeE ∧ lineFree b ∧ lineFree a
   | .asrt c bd _ _ b a => c.lineFreeE ∧ bd.lineFreeE ∧ lineFree b ∧ lineFree a
   | .sel e _ _ _ b a => e.lineFreeE ∧ lineFree b ∧ lineFree a
+  | .selOr e _ _ _ d _ _ b a => e.lineFreeE ∧ d.lineFreeE ∧ lineFree b ∧ lineFree a
 def allLineFree : List Expr → Prop
   | [] => True
   | e :: rest => e.lineFreeE ∧ allLineFree rest
@@ -480,6 +481,7 @@ theorem lineFreeE_after {e : Expr} (h : e.lineFreeE) : lineFree e.after := by
   | wth e bd c g s b a => exact h.2.2.2
   | asrt c bd x y b a => exact h.2.2.2
   | sel e ats g ab b a => exact h.2.2
+  | selOr e ats g ab d dg db b a => exact h.2.2.2
 
 mutual
 theorem lexOut_noLine : (e : Expr) → e.ok → e.lineFreeE → ∀ na, noLineL (e.lexOut na)
@@ -544,6 +546,23 @@ theorem lexOut_noLine : (e : Expr) → e.ok → e.lineFreeE → ∀ na, noLineL 
       · cases h
       · cases h
       · exact ih h
+  | .selOr e attrs g ab d dg db b a, hok, hf, na => by
+    simp only [Expr.lexOut]
+    have hattr : noLineL (attrLex attrs) := by
+      intro s hs
+      exfalso
+      clear hok hf
+      induction attrs with
+      | nil => cases hs
+      | cons x r ih =>
+        simp only [attrLex, List.mem_cons] at hs
+        rcases hs with h | h | h
+        · cases h
+        · cases h
+        · exact ih h
+    exact noLineL_append.mpr ⟨noLineL_append.mpr ⟨noLineL_append.mpr ⟨noLineL_append.mpr ⟨noLineL_append.mpr
+      ⟨noLineL_cm hok.2.2.2.2.2.2.1 hf.2.2.1, lexOut_noLine e hok.1 hf.1 false⟩, hattr⟩, noLineL_tok _⟩,
+      lexOut_noLine d hok.2.2.2.2.1 hf.2.1 false⟩, noLineL_ite _ noLineL_nil (noLineL_cm hok.2.2.2.2.2.2.2 hf.2.2.2)⟩
 theorem lexOutAll_noLine : (es : List Expr) → allOk es → allLineFree es → noLineL (lexOutAll es)
   | [], _, _ => noLineL_nil
   | e :: rest, hok, hf => by
@@ -603,6 +622,8 @@ def Expr.mlSafe : Expr → Prop
     cond.mlSafe ∧ body.mlSafe ∧ cond.notBinding = true ∧ body.notBinding = true ∧ cond.after = [] ∧ body.after = []
   -- the expression a select is applied to carries no trailing trivia of its own
   | .sel e _ _ _ _ _ => e.mlSafe ∧ e.notBinding = true ∧ e.after = []
+  | .selOr e _ _ _ d _ _ _ _ =>
+    e.mlSafe ∧ d.mlSafe ∧ e.notBinding = true ∧ d.notBinding = true ∧ e.after = [] ∧ d.after = []
 def allMlSafe : List Expr → Prop
   | [] => True
   | e :: rest => e.mlSafe ∧ allMlSafe rest
@@ -783,12 +804,14 @@ theorem rebuildAP_after_nil {e : Expr} (h : e.after = []) (i : Nat) (b : Bool) :
   | wth e bd c g s bf af => simp only [Expr.after] at h; subst h; simp [Expr.rebuildAP]
   | asrt c bd x y bf af => simp only [Expr.after] at h; subst h; simp [Expr.rebuildAP]
   | sel e ats g ab bf af => simp only [Expr.after] at h; subst h; simp [Expr.rebuildAP]
+  | selOr e ats g ab d dg db bf af => simp only [Expr.after] at h; subst h; simp [Expr.rebuildAP]
 
 /-- the argument of a call / the body of a `with` is rendered last and carries no trailing trivia -/
 def Expr.tailOk : Expr → Prop
   | .app _ x _ _ _ _ => x.after = [] ∧ x.notBinding = true ∧ x.tailOk
   | .wth _ x _ _ _ _ _ => x.after = [] ∧ x.notBinding = true ∧ x.tailOk
   | .asrt _ x _ _ _ _ => x.after = [] ∧ x.notBinding = true ∧ x.tailOk
+  | .selOr _ _ _ _ x _ _ _ _ => x.after = [] ∧ x.notBinding = true ∧ x.tailOk
   | _ => True
 
 theorem mlSafe_tailOk : (e : Expr) → e.mlSafe → e.tailOk
@@ -801,6 +824,7 @@ theorem mlSafe_tailOk : (e : Expr) → e.mlSafe → e.tailOk
   | .wth _ x _ _ _ _ _, h => ⟨h.2.2.2.2.2, h.2.2.2.1, mlSafe_tailOk x h.2.1⟩
   | .asrt _ x _ _ _ _, h => ⟨h.2.2.2.2.2, h.2.2.2.1, mlSafe_tailOk x h.2.1⟩
   | .sel .., _ => trivial
+  | .selOr _ _ _ _ x _ _ _ _, h => ⟨h.2.2.2.2.2, h.2.2.2.1, mlSafe_tailOk x h.2.1⟩
 
 theorem attrP_endsTok : ∀ (attrs : List Text), attrs ≠ [] → (∀ x ∈ attrs, solidT x) →
     ∃ t, EndsTok (attrP attrs) t ∧ solidT t
@@ -890,6 +914,14 @@ theorem noAfter_ends_tok : (e : Expr) → e.ok → e.tailOk → e.notBinding = t
     simp only [Expr.rebuildAP, addTriviaP, if_true, trailP_nil]
     exact endsTok_append_nil (endsTok_append _ (endsTok_append _ ht))
 
+  | .selOr e attrs g ab d dg db bf af, hok, hml, _, i, b => by
+    obtain ⟨hxa, hxnb, hxm⟩ := hml
+    obtain ⟨t, ht, hst⟩ := noAfter_ends_tok d hok.2.2.2.2.1 hxm hxnb (selOrIndent dg i) true
+    rw [← rebuildAP_after_nil hxa] at ht
+    refine ⟨t, ?_, hst⟩
+    simp only [Expr.rebuildAP, addTriviaP, if_true, trailP_nil]
+    exact endsTok_append_nil (endsTok_append _ (endsTok_append _ ht))
+
 /-- the trailing trivia are rendered last -/
 theorem rebuildAP_split {e : Expr} (hna : e.isAsrtE = false) (hnb : e.notBinding = true) (i : Nat) (b : Bool) :
     e.rebuildAP false i b = e.rebuildAP true i b ++ trailP e.after i := by
@@ -912,6 +944,7 @@ theorem rebuildAP_split {e : Expr} (hna : e.isAsrtE = false) (hnb : e.notBinding
   | app n x g fa bf af => simp [Expr.rebuildAP, addTriviaP, trailP_nil, Expr.after]
   | wth e bd c g s bf af => simp [Expr.rebuildAP, addTriviaP, trailP_nil, Expr.after]
   | sel e ats g ab bf af => simp [Expr.rebuildAP, addTriviaP, trailP_nil, Expr.after]
+  | selOr e ats g ab d dg db bf af => simp [Expr.rebuildAP, addTriviaP, trailP_nil, Expr.after]
   | asrt c bd x y bf af => cases hna
 
 /-- an expression without trailing trivia ends closed -/
@@ -949,6 +982,7 @@ theorem rebuildAP_open {e : Expr} (hok : e.ok) (hml : e.mlSafe) (hnb : e.notBind
     | app => cases hA
     | wth => cases hA
     | sel => cases hA
+    | selOr => cases hA
 
 /-- the comments after the function: safe after a closed state; open afterwards only if the last one
     is a line comment -/
@@ -1293,6 +1327,29 @@ theorem rebuildAP_safe : (e : Expr) → e.ok → e.mlSafe → ∀ (na : Bool) (i
     simp only [List.cons_append, List.nil_append, (tok_then _ _).1, (ws_then _ _).1]
     rw [hattr]
     exact ht
+  | .selOr expr attrs g ab d dg db before after, hok, hml, na, i, b => by
+    obtain ⟨he, hne, hat, _, hd, _, hb, ha⟩ := hok
+    obtain ⟨hem, hdm, henb, hdnb, hea, hda⟩ := hml
+    have ht := (trailP_safe (ite_nil_ok na ha) i).1
+    have hattr : ∀ (rest : List FP), safeGo false (attrP attrs ++ rest) = safeGo false rest := by
+      intro rest
+      clear hne hat
+      induction attrs with
+      | nil => rfl
+      | cons x r ih =>
+        cases r with
+        | nil => simp only [attrP, List.cons_append, List.nil_append, (tok_then _ _).1]
+        | cons y r' =>
+          simp only [attrP, List.cons_append, (tok_then _ _).1]
+          exact ih
+    simp only [Expr.rebuildAP, addTriviaP, List.append_assoc]
+    rw [(lines_then i hb _).1, (indentP_scan i b _).1]
+    rw [safeGo_append, rebuildAP_safe expr he hem false i true, closed_of_after_nil he hem henb hea i true, Bool.true_and]
+    simp only [List.cons_append, List.nil_append, (tok_then _ _).1, (ws_then _ _).1]
+    rw [hattr]
+    simp only [(tok_then _ _).1, (ws_then _ _).1]
+    rw [safeGo_append, rebuildAP_safe d hd hdm false _ true, closed_of_after_nil hd hdm hdnb hda _ true, Bool.true_and]
+    exact ht
 theorem rebuildAllP_safe : (es : List Expr) → allOk es → allMlSafe es → ∀ (i : Nat) (b : Bool),
     ∀ x ∈ rebuildAllP es i b, safeGo false x = true
   | [], _, _, _, _, x, hx => by cases hx
@@ -1311,6 +1368,7 @@ theorem previewP_safe : (e : Expr) → e.ok → e.mlSafe → ∀ (i : Nat) (p : 
   | .wth .., _, _, i, p, h => by simp [Expr.previewP] at h
   | .asrt .., _, _, i, p, h => by simp [Expr.previewP] at h
   | .sel .., _, _, i, p, h => by simp [Expr.previewP] at h
+  | .selOr .., _, _, i, p, h => by simp [Expr.previewP] at h
   | .list value ml inner before after, hok, hml, i, p, h => by
     obtain ⟨hv, hin, hb, ha⟩ := hok
     refine ⟨[']'], ?_, solidT_lit ']' (by decide), ?_⟩
@@ -1451,6 +1509,7 @@ def Cst.noLineC : Cst → Bool
   | .app f cs _ a => f.noLineC && gcNoLine cs && a.noLineC
   | .kw _ c1 _ h c2 _ c3 _ b => gcNoLine c1 && h.noLineC && gcNoLine c2 && gcNoLine c3 && b.noLineC
   | .sel e c1 _ _ _ => e.noLineC && gcNoLine c1
+  | .selOr e c1 _ _ _ c2 _ _ d => e.noLineC && gcNoLine c1 && gcNoLine c2 && d.noLineC
 def Items.noLineI : Items → Bool
   | .nil => true
   | .cmt _ t rest => !isLineCmt t && rest.noLineI
@@ -1556,6 +1615,16 @@ theorem cst_noLine_of_noNL : (c : Cst) → c.wf = true → containsNL c.flatten 
       simpa [Cst.flatten, flattenGC, List.append_assoc] using hn
     simp only [Cst.noLineC, gcNoLine, List.all_nil, Bool.and_true]
     exact cst_noLine_of_noNL e hew (containsNL_append_false h1).1
+  | .selOr e c1 g1 gd attrs c2 g2 g3 d, hwf, hn => by
+    simp only [Cst.wf, Bool.and_eq_true, List.isEmpty_iff] at hwf
+    obtain ⟨⟨⟨⟨⟨⟨⟨⟨⟨hew, hc1⟩, _⟩, _⟩, _⟩, _⟩, hc2⟩, _⟩, _⟩, hdw⟩ := hwf
+    subst hc1; subst hc2
+    have h1 : containsNL (e.flatten ++ ((g1 ++ (['.'] ++ (gd ++ (attrText attrs ++ (g2 ++ (['o', 'r'] ++ g3)))))) ++ d.flatten)) = false := by
+      simpa [Cst.flatten, flattenGC, List.append_assoc] using hn
+    have a1 := containsNL_append_false h1
+    have a2 := containsNL_append_false a1.2
+    simp only [Cst.noLineC, gcNoLine, List.all_nil, Bool.and_true, Bool.and_eq_true]
+    exact ⟨cst_noLine_of_noNL e hew a1.1, cst_noLine_of_noNL d hdw a2.2⟩
 theorem items_noLine_of_noNL : (its : Items) → ∀ (m : Mode) (cg : Text), its.wf m cg = true → m ≠ .file →
     containsNL (its.flatten ++ cg) = false → its.noLineI = true
   | .nil, _, _, _, _, _ => rfl
@@ -1648,6 +1717,7 @@ theorem lineFreeE_setBefore {e : Expr} (h : e.lineFreeE) {b : List Trivia} (hb :
   | wth e bd c g s b' a => exact ⟨h.1, h.2.1, hb, h.2.2.2⟩
   | asrt c bd x y b' a => exact ⟨h.1, h.2.1, hb, h.2.2.2⟩
   | sel e ats g ab b' a => exact ⟨h.1, hb, h.2.2⟩
+  | selOr e ats g ab d dg db b' a => exact ⟨h.1, h.2.1, hb, h.2.2.2⟩
 
 theorem lineFreeE_addAfter {e : Expr} (h : e.lineFreeE) {a : List Trivia} (ha : lineFree a) : (e.addAfter a).lineFreeE := by
   have haa := lineFree_append.mpr ⟨lineFreeE_after h, ha⟩
@@ -1661,6 +1731,7 @@ theorem lineFreeE_addAfter {e : Expr} (h : e.lineFreeE) {a : List Trivia} (ha : 
   | wth e bd c g s b a' => exact ⟨h.1, h.2.1, h.2.2.1, haa⟩
   | asrt c bd x y b a' => exact ⟨h.1, h.2.1, h.2.2.1, haa⟩
   | sel e ats g ab b a' => exact ⟨h.1, h.2.1, haa⟩
+  | selOr e ats g ab d dg db b a' => exact ⟨h.1, h.2.1, h.2.2.1, haa⟩
 
 theorem mlSafe_setBefore {e : Expr} (h : e.mlSafe) (b : List Trivia) : (e.setBefore b).mlSafe := by
   cases e <;> exact h
@@ -1743,6 +1814,7 @@ theorem lineFreeE_before {e : Expr} (h : e.lineFreeE) : lineFree e.before := by
   | wth e bd c g s b a => exact h.2.2.1
   | asrt c bd x y b a => exact h.2.2.1
   | sel e ats g ab b a => exact h.2.1
+  | selOr e ats g ab d dg db b a => exact h.2.2.1
 
 theorem binding_inv {n : Text} {c1 c2 c3 : GC} {g1 g2 g3 : Text} {ve b : Expr} {before : List Trivia}
     (h1 : gcOk c1 g1 = true) (h2 : gcOk c2 g2 = true) (h3 : gcOk c3 g3 = true)
@@ -2149,6 +2221,19 @@ theorem cst_parse_inv : (c : Cst) → c.wf = true → ∀ (e : Expr), c.parse = 
     refine ⟨⟨hie.1, hie.2.1, hea⟩, rfl, fun hnl => ?_⟩
     simp only [Cst.noLineC, Bool.and_eq_true] at hnl
     exact ⟨hie.2.2 hnl.1, lineFree_nil, lineFree_nil⟩
+  | .selOr e c1 g1 gd attrs c2 g2 g3 d, hwf, ex, hp => by
+    simp only [Cst.wf, Bool.and_eq_true, List.isEmpty_iff] at hwf
+    obtain ⟨⟨⟨⟨⟨⟨⟨⟨⟨hew, hc1⟩, _⟩, _⟩, _⟩, _⟩, hc2⟩, _⟩, _⟩, hdw⟩ := hwf
+    subst hc1; subst hc2
+    obtain ⟨ee, hpe, _, _, hea, _⟩ := cst_parse_spec false e hew (fun h => by cases h)
+    obtain ⟨de, hpd, _, _, hda, _⟩ := cst_parse_spec false d hdw (fun h => by cases h)
+    have hie := cst_parse_inv e hew ee hpe
+    have hid := cst_parse_inv d hdw de hpd
+    simp only [Cst.parse, hpe, hpd] at hp
+    injection hp with hp; subst hp
+    refine ⟨⟨hie.1, hid.1, hie.2.1, hid.2.1, hea, hda⟩, rfl, fun hnl => ?_⟩
+    simp only [Cst.noLineC, Bool.and_eq_true] at hnl
+    exact ⟨hie.2.2 hnl.1.1.1, hid.2.2 hnl.2, lineFree_nil, lineFree_nil⟩
 theorem items_parse_inv : (its : Items) → ∀ (m : Mode) (cg : Text) (st st' : SeqSt), its.wf m cg = true →
     its.parseSeq m st = .ok st' → allMlSafe st.items →
     allMlSafe st'.items ∧ (its.noLineI = true → allLineFree st.items → lineFree st.before →
